@@ -38,7 +38,12 @@ type Cluster struct {
 	// that ancestors reach other replicas after their descendants, in batches of their own
 	GapFill   bool
 	FlakyOpen bool
-	wseq      []int
+	// BurstCancel: in a write burst the kernel may cancel the context of a writer that sits
+	// between two of its write-path steps (the client gave up); such a write may fail, and its
+	// entry may or may not be in the log (Maybe)
+	BurstCancel bool
+	Maybe       map[string]bool
+	wseq        []int
 }
 
 type ClusterCfg struct {
@@ -60,7 +65,7 @@ type ClusterCfg struct {
 }
 
 func (k *K) NewCluster(cfg ClusterCfg) *Cluster {
-	c := &Cluster{K: k, Type: cfg.Type, ByHash: map[string]*WriteRec{}, CreateOpts: cfg.CreateOpts, PeerOpts: cfg.PeerOpts, FlakyOpen: cfg.FlakyOpen}
+	c := &Cluster{K: k, Type: cfg.Type, ByHash: map[string]*WriteRec{}, Maybe: map[string]bool{}, CreateOpts: cfg.CreateOpts, PeerOpts: cfg.PeerOpts, FlakyOpen: cfg.FlakyOpen}
 	if cfg.Name == "" {
 		cfg.Name = "db"
 	}
